@@ -205,3 +205,190 @@ def xref_model(r, ncls=None):
                         "ifields": [{"name": f["name"], "type": f["type"], "access": 1} for f in c["fields"] if not f["static"]],
                         "dmethods": dm, "vmethods": vm})
     return {"classes": classes, "strings_extra": []}
+
+
+# --------------------------------------------------------------------------
+# C22: structured control flow (loops, nested ifs, short-circuit conditions, switches, try/catch)
+# --------------------------------------------------------------------------
+
+NEG = {"eq": "ne", "ne": "eq", "lt": "ge", "ge": "lt", "gt": "le", "le": "gt"}
+
+
+class _Structured:
+    def __init__(self, r, nlocals=5, nparams=2):
+        self.r = r
+        self.insns = []
+        self.tries = []
+        self.nl = 0
+        self.locals = list(range(nlocals))
+        self.exc_reg = nlocals
+        self.regs = nlocals + 1 + nparams
+        self.params = [nlocals + 1 + i for i in range(nparams)]
+        self.budget = r.randint(6, 40)
+
+    def label(self):
+        self.nl += 1
+        return "L%d" % self.nl
+
+    def emit(self, *ins):
+        self.insns.append(list(ins))
+
+    def var(self):
+        return self.r.choice(self.locals + self.params)
+
+    def simple(self):
+        r = self.r
+        k = r.random()
+        d = r.choice(self.locals)
+        if k < 0.3:
+            self.emit("const4", d, r.randint(-8, 7))
+        elif k < 0.55:
+            self.emit("binop", r.choice(["add", "sub", "mul", "and", "or", "xor"]), d, self.var(), self.var())
+        elif k < 0.75:
+            self.emit("binoplit8", r.choice(["add", "mul", "and"]), d, self.var(), r.randint(-5, 9))
+        elif k < 0.9:
+            self.emit("invoke", "static", [self.var()], ["Lext/U;", "f", "I", ["I"]])
+            self.emit("move-result", "", d)
+        else:
+            self.emit("sget", "", d, ["Lext/U;", "g", "I"])
+
+    def cond(self, depth=0):
+        r = self.r
+        k = r.random()
+        if depth < 2 and k < 0.18:
+            return ("and", self.cond(depth + 1), self.cond(depth + 1))
+        if depth < 2 and k < 0.36:
+            return ("or", self.cond(depth + 1), self.cond(depth + 1))
+        if k < 0.6:
+            return ("z", r.choice(list(NEG)), self.var())
+        return ("c", r.choice(list(NEG)), self.var(), self.var())
+
+    def jf(self, c, target):
+        """jump to target if c is false, fall through if true"""
+        if c[0] == "and":
+            self.jf(c[1], target)
+            self.jf(c[2], target)
+        elif c[0] == "or":
+            lt = self.label()
+            self.jt(c[1], lt)
+            self.jf(c[2], target)
+            self.emit("label", lt)
+        elif c[0] == "z":
+            self.emit("ifz", NEG[c[1]], c[2], target)
+        else:
+            self.emit("if", NEG[c[1]], c[2], c[3], target)
+
+    def jt(self, c, target):
+        if c[0] == "or":
+            self.jt(c[1], target)
+            self.jt(c[2], target)
+        elif c[0] == "and":
+            lf = self.label()
+            self.jf(c[1], lf)
+            self.jt(c[2], target)
+            self.emit("label", lf)
+        elif c[0] == "z":
+            self.emit("ifz", c[1], c[2], target)
+        else:
+            self.emit("if", c[1], c[2], c[3], target)
+
+    def block(self, depth, loop):
+        r = self.r
+        for _ in range(r.randint(1, 3)):
+            self.budget -= 1
+            k = r.random()
+            if depth >= 3 or self.budget <= 0 or k < 0.30:
+                self.simple()
+            elif k < 0.52:
+                lelse, lend = self.label(), self.label()
+                self.jf(self.cond(), lelse)
+                self.block(depth + 1, loop)
+                if r.random() < 0.6:
+                    self.emit("goto16", lend)
+                    self.emit("label", lelse)
+                    self.block(depth + 1, loop)
+                    self.emit("label", lend)
+                else:
+                    self.emit("label", lelse)
+            elif k < 0.70:
+                lhead, lend = self.label(), self.label()
+                self.emit("label", lhead)
+                self.jf(self.cond(), lend)
+                self.block(depth + 1, (lhead, lend))
+                self.emit("goto16", lhead)
+                self.emit("label", lend)
+            elif k < 0.78:
+                lhead, lend, lcont = self.label(), self.label(), self.label()
+                self.emit("label", lhead)
+                self.block(depth + 1, (lcont, lend))
+                self.emit("label", lcont)
+                self.jt(self.cond(), lhead)
+                self.emit("label", lend)
+            elif k < 0.87:
+                n = r.randint(2, 4)
+                labs = [self.label() for _ in range(n)]
+                lend = self.label()
+                self.emit("packed-switch", self.var(), r.randint(-1, 3), labs)
+                self.simple()
+                self.emit("goto16", lend)
+                for i, lab in enumerate(labs):
+                    self.emit("label", lab)
+                    self.block(depth + 1, loop)
+                    if i < n - 1 and r.random() < 0.75:
+                        self.emit("goto16", lend)
+                self.emit("label", lend)
+            elif k < 0.94:
+                ls, le, lh, lafter = self.label(), self.label(), self.label(), self.label()
+                self.emit("label", ls)
+                self.emit("invoke", "static", [self.var()], ["Lext/U;", "f", "I", ["I"]])
+                self.emit("move-result", "", r.choice(self.locals))
+                if r.random() < 0.5:
+                    self.block(depth + 1, loop)
+                self.emit("label", le)
+                self.emit("goto16", lafter)
+                self.emit("label", lh)
+                self.emit("move-exception", self.exc_reg)
+                self.simple()
+                self.emit("label", lafter)
+                if r.random() < 0.3:
+                    self.tries.append([ls, le, [["Ljava/lang/RuntimeException;", lh]], None])
+                elif r.random() < 0.5:
+                    self.tries.append([ls, le, [], lh])
+                else:
+                    self.tries.append([ls, le, [["Ljava/lang/Exception;", lh]], None])
+            elif loop and k < 0.975:
+                lskip = self.label()
+                self.jf(self.cond(), lskip)
+                self.emit("goto16", loop[r.randrange(2)])
+                self.emit("label", lskip)
+            else:
+                lskip = self.label()
+                self.jf(self.cond(), lskip)
+                self.emit("return", "", self.var())
+                self.emit("label", lskip)
+
+
+def structured_method(r, name, static=True):
+    g = _Structured(r)
+    for v in g.locals:
+        g.emit("const4", v, r.randint(0, 3))
+    g.block(0, None)
+    g.emit("return", "", g.var())
+    # a goto16 to the immediately following label has offset 1 (legal); offset 0 cannot occur (labels follow the goto)
+    access = A.ACC_PUBLIC | (A.ACC_STATIC if static else 0)
+    regs = g.regs + (0 if static else 1)
+    return {"name": name, "ret": "I", "params": ["I", "I"], "access": access,
+            "code": {"regs": regs, "insns": g.insns, "tries": g.tries}}
+
+
+def structured_model(r, ncls=None, nmeth=None):
+    classes = []
+    for ci in range(ncls or r.randint(1, 3)):
+        dm = [ctor()]
+        vm = []
+        for mi in range(nmeth or r.randint(2, 6)):
+            dm.append(structured_method(r, "m%d" % mi, static=True))
+        classes.append({"desc": "Ls/S%d;" % ci, "access": 1, "super": OBJ, "interfaces": [], "source": None,
+                        "sfields": [{"name": "g", "type": "I", "access": 9}] if r.random() < 0.5 else [],
+                        "ifields": [], "dmethods": dm, "vmethods": vm})
+    return {"classes": classes, "strings_extra": []}
